@@ -1868,14 +1868,20 @@ Expr={expr}"""
     def any(self, axis=0, skipna=True, split_every=False, **kwargs):
         axis = self._validate_axis(axis)
         if axis == 1:
-            return self.map_partitions(M.any, skipna=skipna, axis=axis)
+            # skipna has no influence on the metadata, but skipna=False raises
+            # for the NA that meta_nonempty puts into nullable columns
+            meta = self._meta_nonempty.any(skipna=True, axis=axis)
+            return self.map_partitions(M.any, skipna=skipna, axis=axis, meta=meta)
         return new_collection(self.expr.any(skipna, split_every))
 
     @derived_from(pd.DataFrame)
     def all(self, axis=0, skipna=True, split_every=False, **kwargs):
         axis = self._validate_axis(axis)
         if axis == 1:
-            return self.map_partitions(M.all, skipna=skipna, axis=axis)
+            # skipna has no influence on the metadata, but skipna=False raises
+            # for the NA that meta_nonempty puts into nullable columns
+            meta = self._meta_nonempty.all(skipna=True, axis=axis)
+            return self.map_partitions(M.all, skipna=skipna, axis=axis, meta=meta)
         return new_collection(self.expr.all(skipna, split_every))
 
     @derived_from(pd.DataFrame)
